@@ -171,8 +171,26 @@ def _walk(c, cfg):
     c.reached("walk")
 
 
+def _badfold(c, cfg):
+    """A fold whose end precedes its start is rejected when the transmitter is built."""
+    from symx.timeproxy import sym_time
+    S = sym_time(c, "S")
+    E = sym_time(c, "Eend")
+    c.assume(E < S)
+    try:
+        Transmitter([datetime(2020, 1, 1), datetime(2020, 1, 2)], folds={"training-set": [S, E]})
+        rejected = False
+    except ValueError:
+        rejected = True
+    c.prove("C15:fold-with-end-before-start-is-rejected", rejected)
+    S2 = sym_time(c, "S2")
+    c.assume(S2 <= S)
+    Transmitter([datetime(2020, 1, 1), datetime(2020, 1, 2)], folds={"a": [S2, S2], "b": [E, S]})   # start == end is fine
+    c.reached("badfold")
+
+
 def harness(c, cfg):
-    {"fold": _fold, "length": _length, "walk": _walk}[cfg["part"]](c, cfg)
+    {"fold": _fold, "length": _length, "walk": _walk, "badfold": _badfold}[cfg["part"]](c, cfg)
 
 
 def configs(tier):
@@ -182,6 +200,7 @@ def configs(tier):
         kw["id"] = "C15/" + ",".join("%s=%s" % kv for kv in sorted(kw.items()))
         out.append(kw)
 
+    add(part="badfold")
     add(part="fold", N=4, M=0, fold="sym")
     add(part="fold", N=3, M=0, fold="two")
     add(part="fold", N=3, M=1, fold="sym", latency="sym", free_kinds=["ping"])
@@ -211,7 +230,7 @@ def configs(tier):
 ANCHORS = ["transmitter.py:Transmitter._reset", "transmitter.py:Transmitter._next",
            "transmitter.py:Transmitter.walk_forward", "transmitter.py:PartitionTimeRanges.verify_start_before_end",
            "env.py:TradingEnv.reset", "env.py:TradingEnv.step"]
-EXPECT_REACH = ["fold", "length", "refused", "walk", "walk-consecutive", "start@0", "start@1"]
+EXPECT_REACH = ["fold", "length", "refused", "walk", "walk-consecutive", "start@0", "start@1", "badfold"]
 ASSUMPTIONS = _A + [
     "np.random.choice is replaced by a stub that records the population it is offered and forks over every index "
     "it could return (so every admissible start is explored, and nothing else)",
